@@ -547,11 +547,13 @@ PATTERNS = {1: ['single-str', 'single-list'], 2: ['distinct', 'uniform-all'],
             3: ['distinct', 'uniform-all', 'uniform-first', 'uniform-last']}
 
 
-def gen_ipmw_case(ctx, index_kind=None):
+def gen_ipmw_case(ctx, index_kind=None, force=None):
     r = ctx.rng
     for attempt in range(200):
         K = r.choice([1, 2, 2, 3, 3, 3])
         pat = r.choice(PATTERNS[K] + (['distinct'] * 2 if K > 1 else []))
+        if force:
+            K, pat = 3, force
         n = r.randint(40, 90)
         rs = np.random.RandomState(r.randrange(2 ** 31))
         L = rs.binomial(1, 0.5, n)
@@ -582,6 +584,11 @@ def gen_ipmw_case(ctx, index_kind=None):
         nden = r.randint(1, K)
         dens = [r.choice(pool) for _ in range(nden)]
         nums = [r.choice(['1', 'L']) for _ in range(r.randint(1, K))] if stab else None
+        if force and not sat:
+            # one model per variable, all different: a variable that is skipped (uniform with its predecessor) must not shift
+            # the models of the variables after it
+            dens = ['L', 'L + W', 'W']
+            nums = ['1', 'L', '1'] if stab else None
         df, kind = datagen.reindex(df, r, index_kind or r.choice(['range', 'range', 'range', 'shift', 'shuffle', 'float', 'str', 'dup']))
         cs = {'part': 'ipmw', 'frame': frame_to_case(df), 'K': K, 'pattern': pat, 'stabilized': stab, 'dens': dens, 'nums': nums,
               'saturated': sat, 'index_kind': kind}
@@ -694,6 +701,19 @@ def ipmw_part(ctx, fails, cases):
             k = cand[0]
             fitted_vars.append(k)
             train_ids[k] = ids
+            # ... and it is fitted with the model listed for THAT variable (the k-th entry; the last entry repeated when fewer
+            # models than variables are given), denominator first, then the numerator when stabilized
+            want_d = expand(cs['dens'], K)[k]
+            got_d = rec['formula'].split('~', 1)[1].strip()
+            if got_d.replace(' ', '') != want_d.replace(' ', ''):
+                fails.append((n, ipmw_key(cs, 'model-of-variable'), '%s: the denominator model of variable %d was fitted as %r, the model listed for it is %r'
+                              % (lab, k, got_d, want_d), cs))
+            if per == 2:
+                want_n = expand(cs['nums'], K)[k]
+                got_n = recs[j + 1]['formula'].split('~', 1)[1].strip()
+                if got_n.replace(' ', '') != want_n.replace(' ', ''):
+                    fails.append((n, ipmw_key(cs, 'model-of-variable'), '%s: the numerator model of variable %d was fitted as %r, the model listed for it is %r'
+                                  % (lab, k, got_n, want_n), cs))
             if not rec['preds'] or len(rec['preds'][-1]) != n or (per == 2 and (not recs[j + 1]['preds'] or len(recs[j + 1]['preds'][-1]) != n)):
                 ok = False
                 fails.append((n, ipmw_key(cs, 'schedule'), '%s: model of variable %d was not used to predict the full data' % (lab, k), cs))
@@ -1011,7 +1031,7 @@ def run(ctx):
             ('iptw', lambda: iptw_part(ctx, fails, [gen_iptw_case(ctx) for _ in range(6 if q else 40)])),
             ('iptw-missing', lambda: missing_part(ctx, fails, [gen_iptw_case(ctx, missing=True) for _ in range(4 if q else 24)])),
             ('stochastic', lambda: stoch_part(ctx, fails, [gen_stoch_case(ctx) for _ in range(10 if q else 80)])),
-            ('ipmw', lambda: ipmw_part(ctx, fails, [gen_ipmw_case(ctx, kinds[i % len(kinds)]) for i in range(64 if q else 600)])),
+            ('ipmw', lambda: ipmw_part(ctx, fails, [gen_ipmw_case(ctx, kinds[i % len(kinds)], force=('uniform-first' if i % 16 == 3 else 'uniform-last' if i % 16 == 11 else None)) for i in range(64 if q else 600)])),
             ('ipcw', lambda: ipcw_part(ctx, fails, [gen_ipcw_case(ctx) for _ in range(24 if q else 200)])),
             ('ipcw-large', lambda: ipcw_large_part(ctx, fails, [ctx.rng.randrange(2 ** 31) for _ in range(1 if q else 4)]))):
         t0 = time.time()
